@@ -71,6 +71,9 @@ pub struct Resp {
   /// final specifier when the loader resolves a redirect itself
   #[serde(default, skip_serializing_if = "Option::is_none")]
   pub fin: Option<String>,
+  /// target of an X-TypeScript-Types response header
+  #[serde(default, skip_serializing_if = "Option::is_none")]
+  pub ht: Option<String>,
   /// the loader's cache holds outdated bytes: `Use` serves them, `Reload` serves the current ones
   #[serde(default)]
   pub stale: bool,
@@ -356,7 +359,14 @@ impl<'a> WorldLoader<'a> {
           content: Arc::from(self.world.render(id).into_bytes()),
           mtime: None,
           specifier: fin,
-          maybe_headers: resp.headers.clone(),
+          maybe_headers: match resp.ht.as_deref().filter(|t| *t != "-") {
+            Some(t) => {
+              let mut h = resp.headers.clone().unwrap_or_default();
+              h.insert("x-typescript-types".to_string(), self.world.text_for(id, t, "0"));
+              Some(h)
+            }
+            None => resp.headers.clone(),
+          },
         }))
       }
       other => panic!("unknown response kind {other}"),
